@@ -12,6 +12,11 @@ Aborted transitions (action Abort, MHKernel.abort.<tier>.cfg): the table target 
 (every k the spec enumerates: RW/PCN 1, CW 1..d, MALA log-density / drift); afterwards the cached evaluations must equal a
 fresh evaluation at the sampler's current point by an un-instrumented target, the point must be one of the kernel states the
 spec allows (partial sweep / sweep start) and the following transitions must decide with the spec's ratio.
+Randomness sources (field cfg.src, MHKernel.src.<tier>.cfg): the specification enumerates source x kernel x interface for the
+options that change where the proposal noise comes from (rng= generator of cuqi.sampler.ULA / MALA, user-supplied proposal
+distribution objects of MH / CWMH, callable proposals of CWMH, the prior object of the pCN target; scalar and per-component
+scales) in dimension 2; each is realised with a scripted generator that serves the spec's noise component by component (a
+request without a size gets ONE component), the recorded calls of the generator show that the draws came from it.
 Code -> spec: real runs of the Metropolis-type samplers under the recorder log the boolean facets cache_ok /
 finite_ok / moved / acc of every transition; TLC validates them against TraceMHKernel.tla.
 """
@@ -29,14 +34,21 @@ META = {
              "proposal, decision, next point and caches after every action; in the Abort behaviours the table target raises at "
              "the evaluation the spec names (every kernel, both interfaces, + experimental ULA), then cache = fresh evaluation "
              "at the current point, point in the spec's allowed set, following transitions as specified (stateless interface "
-             "also sample(2) after an aborted sample(2) on one sampler object); recorded real runs are validated by TLC "
-             "against TraceMHKernel."),
+             "also sample(2) after an aborted sample(2) on one sampler object); the configurations carry a randomness source "
+             "(constant Sources: numpy's global stream | rng= generator | user-supplied proposal object | callable proposal | "
+             "prior object) and every (kernel, interface, source) the spec enumerates is replayed in dimension 2 with a scripted "
+             "generator serving the noise component by component on noise vectors with two different components; recorded real "
+             "runs are validated by TLC against TraceMHKernel."),
     "note": ("Targets are tables on a finite lattice (the ratio identities do not depend on the table values); a computed ratio "
              "must deviate by more than 1e-6 relative to flip a scripted decision. Legacy CWMH is driven with a copy of x "
              "(its in-place write is finding C14-F1). CWMH of either interface cannot run in dimension 1 (observation). "
              "Warm-up of the stateful interface is one scripted warmup(1) step (real tune()), of the stateless interface a "
              "real sample_adapt(10); the scale is then reset to a lattice value through the public attribute. Whether an "
-             "exception of the target reaches the caller is an observation; only the state / decisions afterwards are judged."),
+             "exception of the target reaches the caller is an observation; only the state / decisions afterwards are judged. "
+             "Sources: a user-supplied proposal / prior / callable that is not drawn from is a mismatch (docstring 'The proposal to "
+             "sample from'); whether the rng= argument of cuqi.sampler.ULA / MALA (not described in their docstrings) is the "
+             "stream used, and which stream delivers the uniform, are observations - an unused rng= makes the facet vacuous "
+             "(exit 2). The experimental ULA / MALA and PCN / MH have no generator argument."),
     "technique": "TLA+ spec (MHKernel) model-checked with TLC; TLC-generated behaviours replayed into the samplers with scripted randomness; recorded traces validated by TLC",
 }
 
@@ -199,6 +211,7 @@ TRACE_CFG = """CONSTANTS
   AllStarts = FALSE
   Hist = FALSE
   Emit = FALSE
+  Sources = {"global"}
   ProposalUsesRawPriorDraw = FALSE
   AcceptsNaN = FALSE
   Mutation = "none"
@@ -506,6 +519,143 @@ def abort_facet(ctx, roots, behs, limit):
     return chosen
 
 
+# ----------------------------------------------------------------------------------------------------------------
+# spec -> code : randomness sources (cfg.src of MHKernel: rng= generator, user-supplied proposal / prior object, callable)
+# ----------------------------------------------------------------------------------------------------------------
+# the options found by reading cuqi/sampler/*.py and cuqi/experimental/mcmc/*.py; MHKernel!SourcesOf must enumerate at least
+# these (cross-check of the specification's table against the reading of the code)
+SOURCE_OPTIONS = {("RW", "exp"): ("proposal",), ("RW", "leg"): ("proposal",),
+                  ("CW", "exp"): ("proposal", "callable"), ("CW", "leg"): ("proposal", "callable"),
+                  ("PCN", "exp"): ("prior",), ("PCN", "leg"): ("prior",),
+                  ("MALA", "leg"): ("rng",)}
+
+
+def select_source(behs, rnd, limit):
+    """every stratum (configuration x shape of the behaviour x distinct-noise first transition) at least once, then a seeded
+    sample up to `limit` behaviours"""
+    from cuqiverif.mhkernel_real import split_transitions, distinct_noise
+    order = list(range(len(behs)))
+    rnd.shuffle(order)
+    seen, pick, rest = set(), [], []
+    for i in order:
+        c = behs[i]["cfg"]
+        items = split_transitions(behs[i]["prog"])
+        first = next(e for kind, e in items if kind == "T")
+        q = (c["k"], c["iface"], c["src"], c["sc"], c["tgt"], c["m"], "".join(kind for kind, _ in items), distinct_noise(c, first))
+        if q not in seen:
+            seen.add(q)
+            pick.append(i)
+        else:
+            rest.append(i)
+    if len(pick) < limit:
+        pick += rest[:limit - len(pick)]
+    return [behs[i] for i in sorted(pick)]
+
+
+def source_facet(ctx, roots, behs):
+    """replay of the behaviours of MHKernel.src.<tier>.cfg: every (kernel, interface, source) the specification enumerates is
+    realised with a scripted generator that serves the noise component by component (dimension 2)"""
+    from cuqiverif import mhkernel_real as R
+    from cuqiverif.core import MachineryError
+    stats = R.new_source_stats()
+    ntrans, nrun = 0, 0
+    t0 = time.time()
+    emitted = {(b["cfg"]["k"], b["cfg"]["iface"], b["cfg"]["src"]) for b in behs}
+    for (kern, iface), srcs in SOURCE_OPTIONS.items():
+        for q in srcs:
+            if (kern, iface, q) not in emitted:
+                raise MachineryError("source facet vacuous: the specification emitted no behaviour of %s/%s with source %s" % (kern, iface, q))
+    if any(b["cfg"]["src"] == "global" or b["cfg"]["d"] < 2 for b in behs):
+        raise MachineryError("source facet: the source configuration must enumerate non-global sources in dimension >= 2")
+    seen_ula = set()
+    for n, b in enumerate(behs):
+        c = b["cfg"]
+        root = roots[_cfgkey(c)]
+        for real in R.realisations(c):
+            bb = b
+            if real == "ula":
+                # the unadjusted kernel: the first transition of the behaviour, made from the initial state, finite proposal
+                if b["prog"][0]["a"] != "p" or b["prog"][0]["tv"][1] <= 0:
+                    continue
+                bb = dict(b, prog=b["prog"][:2])
+                kk = _cfgkey([c, bb["prog"][0]])
+                if kk in seen_ula:
+                    continue
+                seen_ula.add(kk)
+            ctx.case(("source", c["k"], c["iface"], c["src"], c["d"], c["tgt"], c["sc"], c["m"], real,
+                      hashlib.sha1(_cfgkey(bb["prog"]).encode()).hexdigest()[:12]), nontrivial=_nontrivial(bb), facet="source")
+            ntrans += R.run_behaviour(ctx, bb, root["rows"], root["sv"], root, real=real, salt=n, srcstats=stats)
+            ctx.traces += 1
+            nrun += 1
+    # vacuity: every (kernel, interface, source) of the specification - and every realisation of it - was really driven through
+    # the scripted generator (its recorded calls show the noise requests) on a noise vector with two different components;
+    # the component-wise kernel also with a per-component scale
+    for (kern, iface, q) in sorted(emitted):
+        reals = R.realisations({"k": kern, "iface": iface, "src": q, "m": 0, "d": 2})
+        for real in reals:
+            key = "%s/%s/%s%s" % (kern, iface, q, "" if real == "user" else "/real=" + real)
+            if not stats["driven"].get(key) or not stats["distinct"].get(key):
+                raise MachineryError(
+                    "source facet vacuous: no transition of %s drew its noise from the given generator on a noise vector with two "
+                    "different components (driven %r, ignored %r)" % (key, stats["driven"].get(key, 0), stats["ignored"].get(key, 0)))
+            if kern == "CW" and not stats["percomp"].get(key):
+                raise MachineryError("source facet vacuous: %s was not driven with a per-component scale" % key)
+    if ("MALA", "leg", "rng") in emitted and not stats["unadjusted"]:
+        raise MachineryError("source facet vacuous: cuqi.sampler.ULA(rng=) did not run")
+    ctx.observe("sources", {"enumerated_by_the_spec": sorted("/".join(q) for q in emitted), "behaviours_emitted": len(behs),
+                            "behaviours_x_realisations_replayed": nrun, "real_transitions": ntrans,
+                            "noise_drawn_from_the_given_generator": stats["driven"],
+                            "of_these_with_two_different_noise_components": stats["distinct"],
+                            "component_wise_kernel_with_per_component_scale": stats["percomp"],
+                            "unadjusted_langevin_rng": stats["unadjusted"], "wall_s": round(time.time() - t0, 1)})
+    ctx.observe("source_generator_calls", stats["calls"])                 # (function, shape) of the requests of one transition
+    # neither required nor forbidden by a docstring: observations
+    ctx.observe("source_uniform_drawn_from", stats["uniform_from"])
+    if stats["ignored"]:
+        ctx.observe("source_option_not_used_for_the_noise", stats["ignored"])
+    if stats["global_also"]:
+        ctx.observe("numpy_global_stream_also_consumed_with_a_given_generator", stats["global_also"])
+    if stats["over_asked"]:
+        ctx.observe("more_normals_requested_than_noise_components", stats["over_asked"])
+    # binding self-tests: (1) a generator that hands ONE value to all components (the class of failure this facet exists for)
+    # must be reported as a proposal mismatch for every (kernel, interface, source); (2) a sampler that is not given the
+    # documented source option draws from the global stream and must be reported
+    tested, dropped = 0, 0
+    for (kern, iface, q) in sorted(emitted):
+        def fit(x):
+            # one transition from the initial state whose noise components are all different from each other and from 0 (the
+            # wrong proposal of a collapsed draw is then a point no component of the sweep evaluates)
+            if (x["cfg"]["k"], x["cfg"]["iface"], x["cfg"]["src"]) != (kern, iface, q) or x["cfg"]["m"] != 0:
+                return False
+            items = R.split_transitions(x["prog"])
+            if items[0][0] != "T":
+                return False
+            z = R.noise_vector(x["cfg"], items[0][1])
+            return len(set(z)) == len(z) and all(v != 0 for v in z)
+        b = next((x for x in behs if fit(x)), None)
+        if b is not None:
+            b = dict(b, prog=b["prog"][:2 * len(R.split_transitions(b["prog"])[0][1])])      # its first transition
+        if b is None:
+            raise MachineryError("binding self-test of the source facet impossible for %s/%s/%s" % (kern, iface, q))
+        root = roots[_cfgkey(b["cfg"])]
+        col = _Collector()
+        R.run_behaviour(col, b, root["rows"], root["sv"], root, salt=0, collapse=True)
+        if not any(h.endswith("/src=%s/proposal" % q) for h in col.hits):
+            raise MachineryError("binding self-test: a generator handing one value to all components was not reported for %s/%s/%s (%r)" % (
+                kern, iface, q, col.hits))
+        tested += 1
+        if q in R.SOURCE_DOC:
+            col = _Collector()
+            R.run_behaviour(col, b, root["rows"], root["sv"], root, salt=0, drop_source=True)
+            if not any(h.endswith("/src=%s/source" % q) for h in col.hits):
+                raise MachineryError("binding self-test: a sampler not given the %s option was not reported for %s/%s (%r)" % (q, kern, iface, col.hits))
+            dropped += 1
+    ctx.observe("binding_selftest_source", "%d (kernel, interface, source) replayed with a generator that hands one value to all "
+                "components: proposal mismatch reported each time; %d replayed without handing over the documented option: "
+                "source mismatch reported each time" % (tested, dropped))
+    return behs
+
+
 def probes(ctx):
     """things neither required nor forbidden by the property: recorded as observations"""
     import cuqi
@@ -549,6 +699,7 @@ def run(ctx):
         jobs["deep"] = pool.submit(_tlc_retry, ctx, "MHKernel", cfg="MHKernel.deep.%s.cfg" % tier, workers=8, timeout=3000)
         jobs["m0"] = pool.submit(_tlc_retry, ctx, "MHKernel", cfg="MHKernel.rawprior_m0.cfg", workers=2, timeout=2400)
         jobs["abort"] = pool.submit(_tlc_retry, ctx, "MHKernel", cfg="MHKernel.abort.%s.cfg" % tier, workers=8, timeout=3000)
+        jobs["src"] = pool.submit(_tlc_retry, ctx, "MHKernel", cfg="MHKernel.src.%s.cfg" % tier, workers=4, timeout=3000)
         for cfg, inv in DEVIATIONS:
             jobs[cfg] = pool.submit(_tlc_retry, ctx, "MHKernel", cfg=cfg, workers=2, expect_violation=True, timeout=2400)
         if tier == "thorough":
@@ -576,13 +727,15 @@ def run(ctx):
         ctx.model_must_hold(res["deep"], "MHKernel(deep)")
         ctx.model_must_hold(res["m0"], "MHKernel(raw prior draw, m=0)")
         ctx.model_must_hold(res["abort"], "MHKernel(abort)")
+        ctx.model_must_hold(res["src"], "MHKernel(sources)")
         for cfg, inv in DEVIATIONS:
             r = res[cfg]
             if r.ok or r.violated != inv:
                 raise MachineryError("deviation %s did not violate %s (got %r): invariant is vacuous" % (cfg, inv, r.violated))
         cases = list(res["main"].cases) + (list(res["sim"].cases) if "sim" in res else [])
-        roots = {_cfgkey(c["cfg"]): c for c in list(res["abort"].cases) + cases if c["kind"] == "root"}
+        roots = {_cfgkey(c["cfg"]): c for c in list(res["abort"].cases) + list(res["src"].cases) + cases if c["kind"] == "root"}
         abehs = [c for c in res["abort"].cases if c["kind"] == "beh"]
+        sbehs = [c for c in res["src"].cases if c["kind"] == "beh"]
         seenb, behs = set(), []
         for c in cases:
             if c["kind"] == "beh":
@@ -610,6 +763,13 @@ def run(ctx):
         chosen = replay_facet(ctx, roots, behs, limit)
         alimit = None if tier == "quick" else 40000
         achosen = abort_facet(ctx, roots, abehs, alimit)
+        slimit = None if tier == "quick" else 8000
+        nsrc = len(sbehs)
+        if slimit is not None and len(sbehs) > slimit:
+            sbehs = select_source(sbehs, random.Random(ctx.seed + 5), slimit)
+        schosen = source_facet(ctx, roots, sbehs)
+        sb = next((b for b in schosen if b["cfg"]["src"] == "rng"), schosen[0])
+        ctx.sample({"source_behaviour": {"cfg": sb["cfg"], "prog": sb["prog"][:2]}})
         ab = next((b for b in achosen if b["cfg"]["k"] == "CW" and _abort_entry(b)["mode"] == "rollback"), achosen[0])
         ctx.sample({"abort_behaviour": {"cfg": ab["cfg"], "prog": ab["prog"][:4]}})
         mid = chosen[len(chosen) // 2]
@@ -634,13 +794,19 @@ def run(ctx):
                 "(quick: all; thorough: edge cover + seeded sample of %d, + simulated deep behaviours); distinct = behaviour x "
                 "realisation, non-trivial = at least one proposal differs from the point it is made from; plus the behaviours with "
                 "one aborted transition of MHKernel.abort.<tier>.cfg (quick: all; thorough: stratum cover + seeded sample of %d; "
-                "target raising at the evaluation the spec names); plus recorded traces (non-trivial = contains a judged "
-                "transition)" % (limit or len(behs), alimit or len(abehs)))
+                "target raising at the evaluation the spec names); plus the behaviours of MHKernel.src.<tier>.cfg (randomness "
+                "sources other than the global stream, dimension 2; every realisation of the source; quick: all; thorough: stratum "
+                "cover + seeded sample of %d); plus recorded traces (non-trivial = contains a judged "
+                "transition)" % (limit or len(behs), alimit or len(abehs), slimit or len(sbehs)))
     # every behaviour of the bounded emission instances was replayed
-    ctx.exhaustive = (limit is None or len(behs) <= limit) and (alimit is None or len(abehs) <= alimit)
+    ctx.exhaustive = (limit is None or len(behs) <= limit) and (alimit is None or len(abehs) <= alimit) and (
+        slimit is None or nsrc <= slimit)
     ctx.assumptions += ["acceptance thresholds are placed 1e-6 (relative) below / above exp(r): a ratio error below 1e-6 is not detected",
                         "table targets on finite lattices; off-lattice evaluations use a smooth finite fallback",
                         "trace facets compare caches with a fresh evaluation of the sampler's own target (rtol 1e-10)",
+                        "randomness sources: the generator given to the code serves standard-normal / uniform requests (randn, "
+                        "standard_normal, normal, rand, random, uniform) in the order of the noise components; other kinds of "
+                        "draws are a machinery error",
                         "aborted transitions: the failure is an exception raised by the target's log-density / drift / forward map "
                         "at the evaluation the spec names, once; failures of other calls (proposal, random stream) are not injected"]
 
